@@ -340,6 +340,21 @@ func writeReplays() {
 	}
 }
 
+// realStdout is the process's standard output as it was at start-up; MuteLibraryStdout points os.Stdout at /dev/null
+// so that clients built with debug=true (the library prints hex dumps with fmt.Printf) do not flood the shard log.
+var realStdout = os.Stdout
+var muteOnce sync.Once
+
+// MuteLibraryStdout must be called before any goroutine that may print is started (it is called at the top of every
+// test through rp.RunAll / hook.Mem / hook.Real); the testing package has captured the real stdout by then.
+func MuteLibraryStdout() {
+	muteOnce.Do(func() {
+		if f, err := os.OpenFile(os.DevNull, os.O_WRONLY, 0); err == nil {
+			os.Stdout = f
+		}
+	})
+}
+
 // Main is the TestMain body of every check package.
 func Main(m *testing.M, property string) {
 	out.Property = property
@@ -373,7 +388,7 @@ func Main(m *testing.M, property string) {
 		os.WriteFile(path, b, 0o644)
 	}
 	for _, v := range out.Violations {
-		fmt.Printf("CHECK-VIOLATION check=%s replay=%s :: %s\n", v.Check, v.Replay, v.Message)
+		fmt.Fprintf(realStdout, "CHECK-VIOLATION check=%s replay=%s :: %s\n", v.Check, v.Replay, v.Message)
 	}
 	mu.Unlock()
 	os.Exit(code)
